@@ -38,9 +38,9 @@ def diff_atoms(a, b):
 
 
 def compare_tables(ck, rule, construct, code_rows, ref_rows, slot, where=None, domain=(), positive=("N", "w"),
-                   note=""):
+                   note="", norm=None):
     """decision-table equivalence obligation"""
-    mis = compare_rows(code_rows, ref_rows, domain=domain, positive=positive)
+    mis = compare_rows(code_rows, ref_rows, domain=domain, positive=positive, norm=norm)
     if mis is None:
         ck.ob(rule, construct, True, expected=describe_rows(ref_rows, 3), found="equivalent normal form",
               slot=slot, where=where, note=note)
